@@ -32,9 +32,28 @@ STRS = ["", "a", "hello world", "x" * 200, "café €", "a\"b\\c", "  lead", "%s
 PY_KEYWORDS = {"False", "None", "True", "and", "as", "assert", "async", "await", "break", "class", "continue", "def", "del",
                "elif", "else", "except", "finally", "for", "from", "global", "if", "import", "in", "is", "lambda",
                "nonlocal", "not", "or", "pass", "raise", "return", "try", "while", "with", "yield"}
+import operator as _o
 OPNAMES = {"==": "__eq__", "!=": "__ne__", "<": "__lt__", "<=": "__le__", ">": "__gt__", ">=": "__ge__", "+": "__add__",
-           "-": "__sub__", "*": "__mul__", "neg": "__neg__", "[]": "__getitem__", "[]c": "__getitem__", "()": "__call__",
-           "cast": "__int__", "+=": "__iadd__", "len": "__len__"}
+           "-": "__sub__", "*": "__mul__", "/": "__truediv__", "%": "__mod__", "<<": "__lshift__", ">>": "__rshift__",
+           "&": "__and__", "|": "__or__", "^": "__xor__", "neg": "__neg__", "pos": "__pos__", "inv": "__invert__", "[]": "__getitem__",
+           "[]c": "__getitem__", "()": "__call__", "cast": "__int__", "float": "__float__", "bool": "__bool__",
+           "hash": "__hash__", "repr": "__repr__", "str": "__str__", "len": "__len__", "pow": "__pow__", "ipow": "__ipow__",
+           "floordiv": "__floordiv__", "radd": "__radd__", "rsub": "__rsub__", "rmul": "__rmul__", "iter": "__iter__",
+           "next": "__next__", "getitem_n": "__getitem__", "setitem_n": "__setitem__", "delitem_n": "__delitem__",
+           "+=": "__iadd__", "-=": "__isub__", "*=": "__imul__", "/=": "__itruediv__", "%=": "__imod__",
+           "<<=": "__ilshift__", ">>=": "__irshift__", "&=": "__iand__", "|=": "__ior__", "^=": "__ixor__"}
+BIN_OPS = {"+": _o.add, "-": _o.sub, "*": _o.mul, "/": _o.truediv, "%": _o.mod, "<<": _o.lshift, ">>": _o.rshift,
+           "&": _o.and_, "|": _o.or_, "^": _o.xor, "floordiv": _o.floordiv, "pow": _o.pow,
+           "==": _o.eq, "!=": _o.ne, "<": _o.lt, "<=": _o.le, ">": _o.gt, ">=": _o.ge}
+ARITH_OPS = ("+", "-", "*", "/", "%", "<<", ">>", "&", "|", "^", "floordiv", "pow")
+INP_OPS = {"+=": _o.iadd, "-=": _o.isub, "*=": _o.imul, "/=": _o.itruediv, "%=": _o.imod, "<<=": _o.ilshift,
+           ">>=": _o.irshift, "&=": _o.iand, "|=": _o.ior, "^=": _o.ixor, "ipow": _o.ipow}
+UN_OPS = {"neg": _o.neg, "inv": _o.invert, "pos": _o.pos, "cast": int, "float": float, "bool": bool, "hash": hash,
+          "repr": repr, "str": str, "len": len, "iter": iter, "next": next}
+REV_OPS = {"radd": _o.add, "rsub": _o.sub, "rmul": _o.mul}
+ONE_ARG_OPS = tuple(BIN_OPS) + tuple(INP_OPS) + tuple(REV_OPS) + ("[]", "[]c", "getitem_n", "delitem_n", "getattr", "delattr")
+TWO_ARG_OPS = ("setitem_n", "setattr")
+FIXED_ARITY_OPS = tuple(UN_OPS) + ONE_ARG_OPS + TWO_ARG_OPS
 CMP_OPS = ("==", "!=", "<", "<=", ">", ">=")
 
 
@@ -159,7 +178,10 @@ class Driver:
                 self.ctor_eids[f["eid"]] = f
         self.anc = {q: self.ancestors(q) for q in self.classes}
         self.none_returns = 0
-        self.size_eids = {f["eid"] for c in model["classes"] for f in c["methods"] if f.get("operator") == "len"}
+        # bodies CPython / the runtime itself consults on an instance passed as argument: __len__ / __bool__ (truth
+        # testing), __float__, __int__ (number conversion), __getattr__ (the `value` attribute read for enum parameters)
+        self.size_eids = {f["eid"] for c in model["classes"] for f in c["methods"]
+                          if f.get("operator") in ("len", "bool", "float", "cast", "getattr")}
         self.ctxkey = None
         self.prestate = {}
         self.pyclass = {}
@@ -321,7 +343,9 @@ class Driver:
             self.features.add("name:class" + (":nested" if "::" in c["qname"] else ""))
             for f in c["methods"]:
                 if f.get("operator"):
-                    dn = OPNAMES[f["operator"]]
+                    dn = OPNAMES.get(f["operator"])
+                    if dn is None:
+                        continue
                     self.count("names_checked")
                     self.features.add("name:operator:" + f["operator"])
                     if dn not in pc.__dict__:
@@ -511,6 +535,9 @@ class Driver:
                     return "yes" if a.extra == t["name"] else "maybe"
                 if c in ("int", "bool"):
                     return "maybe"
+                if c == "obj" and any(m.get("operator") == "getattr" for qq in [a.t.cls] + list(self.anc[a.t.cls])
+                                      for m in self.classes[qq]["methods"]):
+                    return "maybe"      # enum parameters read the argument's `value` attribute (duck typing)
                 return "no"
             if c == "int":
                 if a.v in [mb["value"] for mb in e["members"]]:
@@ -829,8 +856,12 @@ class Driver:
                 # the call was rejected for another reason changed no object
                 ti = int(fl.get("this", 0))
                 t0 = cf_["params"][0]["type"]
+                conv = {fl2.get("r") for e2, fl2, _ in ev if e2 in self.size_eids}
+
                 def same_value(a_):
-                    if a_.c in ("obj", "tuple", "junk", "none"):
+                    if a_.c == "obj":
+                        return fl.get("a0") in conv      # the instance's own __float__ / __int__ result
+                    if a_.c in ("tuple", "junk", "none"):
                         return False
                     if t0["k"] == "float" and a_.c in ("int", "bool", "float"):
                         try:
@@ -858,7 +889,8 @@ class Driver:
                     for s_, p_ in zip(sl_, f_["params"]):
                         if s_ is not None and self.acc(s_, p_["type"]) == "oor":
                             why = "arg=int-out-of-range"
-            if g["kind"] == "op" and fns[0].get("operator") in ("+", "-", "*", "+="):
+            if g["kind"] == "op" and (fns[0].get("operator") in ARITH_OPS or fns[0].get("operator") in INP_OPS
+                                      or fns[0].get("operator") in REV_OPS):
                 why += ":binary-operator"
             self.bad(f"returned-with-exception-set:exc={pend}:{why}", call=callsig,
                      trace=[l for _, _, l in ev][:4], returned=repr(res)[:60])
@@ -965,6 +997,8 @@ class Driver:
                         sys.stderr.write(f"KWDECL {callsig} :: {excmsg}\n")
                 else:
                     sp = self.special(f0, sl0)
+                    if f0.get("operator") == "pos":
+                        sp = ":operator=unary-plus"
                     if exc == "OverflowError" and any_oor:
                         # the range check of another overload of the set raised instead of letting the next one try
                         pt = next((tkind(p_["type"]) for f_, st_, sl_ in sts if sl_ for s_, p_ in zip(sl_, f_["params"])
@@ -975,6 +1009,10 @@ class Driver:
                     else:
                         self.bad(f"positive-rejected:exc={exc}:kind={kindsig}:params={psig}" + (":kw" if kw else ""),
                                  call=callsig, exc=excmsg)
+            elif not main and fns[0].get("operator") in INP_OPS and recv is not None and res is recv.w:
+                # the in-place slot handed back the left operand without ever calling the C++ method
+                self.bad("inplace-operator-body-not-run:named=" + ("yes" if fns[0]["name"].startswith("__") else "no"),
+                         call=callsig)
             elif len(main) != 1 or main[0][0] not in exp_eids:
                 ran = [next((f for f in self.all_fns() if f["eid"] == e), None) for e, _, _ in main]
                 rans = ";".join(",".join(tcat(p["type"]) for p in f["params"]) if f else "?" for f in ran) or "nothing"
@@ -1057,8 +1095,8 @@ class Driver:
                         if cf.get("explicit") and g["kind"] != "ctor":
                             self.bad("explicit-ctor-used-for-coercion", call=callsig, trace=[l2 for _, _, l2 in ev][:6])
                         continue
-                    if fns[0].get("operator") in CMP_OPS:
-                        continue     # Python asked the right operand's reflected comparison
+                    if fns[0].get("operator") in BIN_OPS or fns[0].get("operator") in INP_OPS or fns[0].get("operator") in REV_OPS:
+                        continue     # Python asked the right operand's reflected operator / fell back from in-place
                     self.bad(f"foreign-body-ran:kind={kindsig}", call=callsig, trace=[l2 for _, _, l2 in ev][:6])
                 # hold on to whatever came back so that its lifetime is judged too
                 result_tr = self.adopt(res, callsig)
@@ -1179,15 +1217,18 @@ class Driver:
         self.features.add("ret:" + tkind(rt))
         key = "result-mismatch:ret=" + tkind(rt)
         if k == "void":
-            if got is not None and not (f.get("operator") == "+="):
+            if got is not None and not (f.get("operator") in INP_OPS):
                 self.bad(key, call=callsig, expected=None, got=repr(got)[:60])
             return None
         if logged is None:
             self.bad("no-result-logged", call=callsig)
             return None
         if k == "int":
-            if type(got) is not int or got != int(logged[1:]):
-                self.bad(key, call=callsig, expected=int(logged[1:]), got=repr(got)[:60])
+            exp_i = int(logged[1:])
+            if f.get("operator") == "hash" and exp_i == -1:
+                exp_i = -2       # CPython reserves -1 for "error"
+            if type(got) is not int or got != exp_i:
+                self.bad(key, call=callsig, expected=exp_i, got=repr(got)[:60])
         elif k == "bool":
             if type(got) is not bool or int(got) != int(logged[1:]):
                 self.bad(key, call=callsig, expected=bool(int(logged[1:])), got=repr(got)[:60])
@@ -1209,7 +1250,7 @@ class Driver:
                 self.bad(key, call=callsig, expected=exp, got=repr(got)[:80])
         elif k == "obj":
             q, mode = rt["cls"], rt["mode"]
-            if f.get("operator") == "+=":
+            if f.get("operator") in INP_OPS:
                 # in-place operators hand back the left operand itself
                 if got is not recv.w:
                     self.bad("result-mismatch:ret=inplace-self", call=callsig, got=repr(got)[:60])
@@ -1289,26 +1330,37 @@ class Driver:
             return lambda a, k: getattr(recv.w, pn)(*a, **k)
         op = g["fns"][0]["operator"]
         w = recv.w
-        if op in ("==", "!=", "<", "<=", ">", ">=", "+", "-", "*"):
-            import operator as o
-            fn = {"==": o.eq, "!=": o.ne, "<": o.lt, "<=": o.le, ">": o.gt, ">=": o.ge, "+": o.add, "-": o.sub, "*": o.mul}[op]
+        if op in BIN_OPS:
+            fn = BIN_OPS[op]
             return lambda a, k: fn(w, *a)
-        if op == "neg":
-            return lambda a, k: -w
-        if op == "len":
-            return lambda a, k: len(w)
-        if op in ("[]", "[]c"):
+        if op in REV_OPS:
+            fn = REV_OPS[op]
+            return lambda a, k: fn(a[0], w)
+        if op in UN_OPS:
+            fn = UN_OPS[op]
+            return lambda a, k: fn(w)
+        if op in ("[]", "[]c", "getitem_n"):
             return lambda a, k: w.__getitem__(*a) if len(a) != 1 else w[a[0]]
+        if op == "setitem_n":
+            return lambda a, k: w.__setitem__(a[0], a[1])
+        if op == "delitem_n":
+            return lambda a, k: w.__delitem__(a[0])
+        if op == "getattr":
+            return lambda a, k: getattr(w, a[0])
+        if op == "setattr":
+            return lambda a, k: setattr(w, a[0], a[1])
+        if op == "delattr":
+            return lambda a, k: delattr(w, a[0])
         if op == "()":
             return lambda a, k: w(*a, **k)
-        if op == "cast":
-            return lambda a, k: int(w)
-        if op == "+=":
-            def iadd(a, k):
+        if op in INP_OPS:
+            fn = INP_OPS[op]
+
+            def inplace(a, k):
                 x = w
-                x += a[0]
+                x = fn(x, a[0])
                 return x
-            return iadd
+            return inplace
         raise KeyError(op)
 
     def make_call(self, g, kindpref=None, fn=None, force=None):
@@ -1365,7 +1417,7 @@ class Driver:
                 ndf = len([p for p in ff["params"] if p["default"] is not None])
                 allowed |= set(range(len(ff["params"]) - ndf, len(ff["params"]) + 1))
             wrong = [k for k in range(0, max(allowed) + 3) if k not in allowed]
-            if op in ("==", "!=", "<", "<=", ">", ">=", "+", "-", "*", "neg", "cast", "+=", "[]", "[]c", "len"):
+            if op in FIXED_ARITY_OPS:
                 return None      # Python syntax fixes the count
             k = r.choice(wrong)
             while len(args) < k:
@@ -1404,16 +1456,47 @@ class Driver:
             if p["type"]["k"] == "enum" and not p["type"].get("scoped") and a.c in ("int", "bool", "float") and \
                     self.acc(a, p["type"]) != "yes":
                 args[i] = self.good_arg(p["type"])
-        if op in ("neg", "cast", "len") and (args or kw):
+        if op in ("iter", "next"):
+            return None      # judged as a whole by do_iter (StopIteration is the protocol, not a failure)
+        if op in UN_OPS and (args or kw):
             return None
-        if op in ("==", "!=", "<", "<=", ">", ">=", "+", "-", "*", "+=", "[]", "[]c") and (len(args) != 1 or kw):
+        if op in ONE_ARG_OPS and (len(args) != 1 or kw):
             return None
+        if op in TWO_ARG_OPS and (len(args) != 2 or kw):
+            return None
+        if op in ("getattr", "setattr", "delattr"):
+            if args[0].c != "str":
+                return None      # Python itself insists on a string
+            # a name that no real attribute has, so that the class's own __getattr__ / __setattr__ is consulted
+            args[0] = Arg("str", "zz_" + r.choice(["a", "attr", "x9", "Name", "long_attribute_name"]))
+        if op in ("getitem_n", "setitem_n", "delitem_n") and self.classes[g["owner"]].get("named_items") == "sequence" and \
+                args[0].c == "int" and not (0 <= args[0].v < 4):
+            return None          # sequence protocol: bounds-checked against __len__ before the body (IndexError)
+        if op in ("setitem_n", "delitem_n", "setattr", "delattr") and recv is not None and recv.const:
+            pass                 # judged as a negative call (const receiver)
         if f.get("seq") and op in ("[]", "[]c") and args[0].c == "int" and not (0 <= args[0].v < 4):
             return None          # sequence protocol: Python bounds-checks before the body (IndexError), nothing to judge
-        if op == "+=" and recv is not None and recv.const:
+        if g["kind"] == "op" and recv is not None and recv.cls != g["owner"]:
+            # a Python type has one function per slot, taken from the first class in the MRO that fills it: an operator
+            # inherited in C++ is only judged when no other class of the receiver's hierarchy feeds the same slot
+            fam = {"+": "add", "radd": "add", "-": "sub", "rsub": "sub", "*": "mul", "rmul": "mul"}
+            sl = fam.get(op, op)
+            if op == "hash":
+                return None
+            for qq in [recv.cls] + list(self.anc[recv.cls]):
+                if qq != g["owner"] and any(fam.get(m.get("operator"), m.get("operator")) == sl for m in self.classes[qq]["methods"]):
+                    return None
+        if op in INP_OPS and recv is not None and recv.const:
             return None
+        if op in INP_OPS and how != "pos":
+            # when the in-place operator declines, Python falls back to the binary operator (x -= y -> x = x - y): only
+            # judged where the class hierarchy has no such operator to fall back to
+            bop = {"ipow": "pow"}.get(op, op[:-1])
+            if any(m.get("operator") in (bop, {"+": "radd", "-": "rsub", "*": "rmul"}.get(bop)) for qq in self.classes
+                   for m in self.classes[qq]["methods"]):
+                return None
         self.ctxkey = None
-        if op in CMP_OPS + ("+", "-", "*") and any(a.c == "obj" and a.t.cls != recv.cls and self.isa(a.t.cls, recv.cls) for a in args):
+        if op in BIN_OPS and any(a.c == "obj" and a.t.cls != recv.cls and self.isa(a.t.cls, recv.cls) for a in args):
             return None      # Python's data model asks the more derived right operand first: not the binding's doing
         if op in CMP_OPS and recv is not None and g["owner"] != recv.cls:
             # the rich-compare slot of a Python type is one function: a class that declares a comparison operator of
@@ -1446,7 +1529,7 @@ class Driver:
         setter = next((f for f in c["methods"] if f["qname"] == p["setter"]), None) if p["setter"] else None
         name = p["name"]
         w = recv.w
-        if setter is not None and r.random() < 0.5:
+        if setter is not None and r.random() < 0.5 and not self.classes[recv.cls].get("attr_class"):
             g = dict(kind="method", owner=c["qname"], name=setter["name"], fns=[setter])
             how = r.random()
             pt = setter["params"][0]["type"]
@@ -1691,6 +1774,140 @@ class Driver:
                 self.count("mi_overload_calls")
                 self.make_call(g, "pos", fn=f, force={0: Arg("obj", t=o)})
 
+    def do_slot_alias(self):
+        """slots fed by ordinary methods: hash(obj) -> get_hash(), a < b ... -> compare_to()"""
+        r = self.rng
+        cands = [(c, f) for c in self.m["classes"] for f in c["methods"] if f.get("hash_method") or f.get("cmp_to")]
+        if not cands:
+            return
+        c, f = r.choice(cands)
+        q = c["qname"]
+        recv = self.receiver_for(q)
+        if recv is None or recv.cls != q:
+            return
+        w = recv.w
+        self.trace()
+        if f.get("hash_method"):
+            if any(m.get("operator") == "hash" for m in c["methods"]):
+                return
+            self.step(f"hash-alias {q} on iid={recv.iid}")
+            self.count("slot_alias_calls")
+            self.features.add("slot-alias:hash->get_hash")
+            try:
+                got = hash(w)
+            except Exception as ex:
+                self.bad(f"slot-alias-rejected:hash:exc={type(ex).__name__}", cls=q, exc=str(ex)[:120])
+                return
+            ev, created, destroyed = self.trace()
+            evs = [fl for eid, fl, l in ev if eid in self.final_overriders(f, self.live.get(recv.iid))]
+            if len(evs) != 1 or int(evs[0].get("this", -1)) != recv.iid:
+                self.bad("slot-alias-wrong-body:hash", cls=q, trace=[l for _, _, l in ev][:4])
+                return
+            exp = int(evs[0]["r"][1:])
+            if got != (-2 if exp == -1 else exp):
+                self.bad("result-mismatch:ret=hash", cls=q, expected=exp, got=got)
+            return
+        # compare_to: only judged where the class (and its bases) declares no comparison operator of its own
+        if any(m.get("operator") in CMP_OPS for qq in [q] + list(self.anc[q]) for m in self.classes[qq]["methods"]):
+            return
+        other = self.pick_obj(q, want_nonconst=True, exact=True)
+        if other is None or recv.cls != q:
+            return
+        op = r.choice(list(CMP_OPS))
+        self.step(f"compare_to-alias {q} {op} on iid={recv.iid}")
+        self.count("slot_alias_calls")
+        self.features.add("slot-alias:" + op + "->compare_to")
+        try:
+            got = BIN_OPS[op](w, other.w)
+        except Exception as ex:
+            self.bad(f"slot-alias-rejected:compare_to:exc={type(ex).__name__}", cls=q, op=op, exc=str(ex)[:120])
+            return
+        ev, created, destroyed = self.trace()
+        evs = [fl for eid, fl, l in ev if eid == f["eid"]]
+        if len(evs) != 1 or int(evs[0].get("this", -1)) != recv.iid or evs[0].get("a0") != "o%d" % other.iid:
+            self.bad("slot-alias-wrong-body:compare_to", cls=q, op=op, trace=[l for _, _, l in ev][:4])
+            return
+        cmpv = int(evs[0]["r"][1:])
+        exp = BIN_OPS[op](cmpv, 0)
+        if got is not exp:
+            self.bad("result-mismatch:ret=compare_to:" + op, cls=q, compare_to=cmpv, expected=exp, got=repr(got)[:40])
+
+    def do_iter(self):
+        """for x in obj: __iter__ once, __next__ until it returns a null pointer; items by identity"""
+        cands = [c for c in self.m["classes"] if c.get("iter_class")]
+        if not cands:
+            return
+        c = self.rng.choice(cands)
+        q = c["qname"]
+        recv = self.receiver_for(q, need_nonconst=True)
+        if recv is None or recv.cls != q:
+            return
+        fi = next(f for f in c["methods"] if f.get("operator") == "iter")
+        fn = next(f for f in c["methods"] if f.get("operator") == "next")
+        self.step(f"iterate {q} on iid={recv.iid}")
+        self.trace()
+        self.count("iterations")
+        self.features.add("iteration")
+        try:
+            items = [x for x in recv.w]
+        except Exception as ex:
+            self.bad(f"iteration-rejected:exc={type(ex).__name__}", cls=q, exc=str(ex)[:120])
+            return
+        ev, created, destroyed = self.trace()
+        its = [fl for eid, fl, l in ev if eid == fi["eid"]]
+        nxs = [fl for eid, fl, l in ev if eid == fn["eid"]]
+        if len(its) != 1 or len(nxs) != 4 or any(int(fl.get("this", -1)) != recv.iid for fl in its + nxs):
+            self.bad("iteration-wrong-bodies", cls=q, iters=len(its), nexts=len(nxs), trace=[l for _, _, l in ev][:7])
+            return
+        exp = [fl.get("r") for fl in nxs]
+        got = ["o%d" % self.iid(x) for x in items] + ["n"]
+        if got != exp:
+            self.bad("result-mismatch:ret=iteration-items", cls=q, expected=exp, got=got)
+        for x in items:
+            if x.this_ownership:
+                self.bad("ownership:borrowed-result-owned:ret=iteration-item", cls=q)
+                self.baseline.add(self.iid(x))
+        items = None
+
+    def do_reversed(self):
+        """<int/float> op obj: without a reflected method of the class the left operand is foreign to every overload:
+        TypeError, no body; (the reflected methods __radd__ / __rsub__ / __rmul__ are called like any other operator)"""
+        r = self.rng
+        cands = [(c, f) for c in self.m["classes"] for f in c["methods"] if f.get("operator") in ARITH_OPS and
+                 f["params"] and f["params"][0]["type"]["k"] in ("int", "float")]
+        if not cands:
+            return
+        c, f = r.choice(cands)
+        q, op = c["qname"], f["operator"]
+        recv = self.receiver_for(q)
+        if recv is None:
+            return
+        refl = {"+": "radd", "-": "rsub", "*": "rmul"}.get(op)
+        if refl and any(m.get("operator") == refl for qq in [recv.cls] + list(self.anc[recv.cls]) for m in self.classes[qq]["methods"]):
+            return
+        left = r.choice([3, -1, 2.5, 0])
+        self.step(f"reversed {left!r} {op} <{recv.cls} iid={recv.iid}>")
+        self.trace()
+        st0 = self.state(recv.cls, recv.w)
+        self.count("reversed_operand_calls")
+        self.features.add("reversed-operand:" + op)
+        exc = None
+        try:
+            BIN_OPS[op](left, recv.w)
+        except Exception as ex:
+            exc = type(ex).__name__
+        pend = self.pending()
+        ev, created, destroyed = self.trace()
+        if exc is None:
+            self.bad(f"no-typeerror:foreign-left-operand:op={op}", cls=q, left=repr(left), trace=[l for _, _, l in ev][:4])
+        elif exc != "TypeError":
+            self.bad(f"wrong-exception:got={exc},want=TypeError:foreign-left-operand", cls=q, op=op)
+        if pend:
+            self.bad(f"returned-with-exception-set:exc={pend}:foreign-left-operand", cls=q, op=op)
+        if [1 for eid, fl, l in ev if eid not in self.copy_eids and not (self.ctor_eids.get(eid) is not None and not self.ctor_eids[eid]["params"])] \
+                or self.state(recv.cls, recv.w) != st0:
+            self.bad("body-ran-but-raised:foreign-left-operand", cls=q, op=op, trace=[l for _, _, l in ev][:4])
+
     def do_setitem_const(self, c):
         """obj[i] = v through a const view must raise TypeError, run no body and leave the items alone"""
         q = c["qname"]
@@ -1731,24 +1948,24 @@ class Driver:
 
     def do_iadd_const(self):
         """x += y on a const view: the in-place operator must not run (Python may fall back to x + y, which is const)"""
-        cands = [(c, f) for c in self.m["classes"] for f in c["methods"] if f.get("operator") == "+="]
+        cands = [(c, f) for c in self.m["classes"] for f in c["methods"] if f.get("operator") in INP_OPS]
         if not cands:
             return
         c, f = self.rng.choice(cands)
         q = c["qname"]
         recv = self.const_view(q)
-        rhs = self.pick_obj(q)
+        rhs = self.good_arg(f["params"][0]["type"])
         if recv is None or rhs is None or not recv.w.this_const:
             return
-        self.step(f"iadd-const {q} on iid={recv.iid}")
+        self.step(f"inplace-const {q} {f['name']} on iid={recv.iid}")
         self.trace()
         st0 = self.state(q, recv.w)
         self.count("inplace_operators_on_const_view")
-        self.features.add("iadd:const-view")
+        self.features.add("inplace:const-view:" + f["operator"])
         x = recv.w
         res = None
         try:
-            x += rhs.w
+            x = INP_OPS[f["operator"]](x, rhs.py())
             res = x
         except Exception:
             pass
@@ -1926,8 +2143,10 @@ class Driver:
                     self.bad("gc-changed-ledger", destroyed=destroyed, created=created)
             elif x < 0.975:
                 self.do_copy()
-            elif x < 0.985:
+            elif x < 0.98:
                 self.do_iadd_const()
+            elif x < 0.985:
+                r.choice([self.do_slot_alias, self.do_iter, self.do_reversed])()
             else:
                 self.do_coerce_tuple()
         # const views of every item-assignment class are written to at least twice per history
@@ -1940,6 +2159,11 @@ class Driver:
             for _ in range(6):
                 self.do_coerce_tuple()
             self.do_mi()
+            for _ in range(6):
+                self.do_slot_alias()
+                self.do_reversed()
+            self.do_iter()
+            self.do_iter()
         # every remaining group once more (A, B, A)
         for g in reversed(others):
             if g["kind"] != "ctor":
